@@ -46,6 +46,10 @@ pub struct C09Case {
     /// `.1` ms and keeps A's transmit slot busy meanwhile (acks may arrive during that time)
     #[serde(default)]
     pub busy_tx: Option<(u16, u16)>,
+    /// after a send failed with a transmit timeout the application opens another exchange on the
+    /// same session (if the session still takes one) and sends one more message
+    #[serde(default)]
+    pub after_timeout: bool,
 }
 
 fn default_linger() -> (u32, u32) {
@@ -76,8 +80,9 @@ pub fn case_strategy() -> impl Strategy<Value = C09Case> {
         any::<u32>(),
         (linger(), linger()),
         prop_oneof![2 => Just(None), 1 => (0u16..2500, 50u16..1500).prop_map(Some)],
+        any::<bool>(),
     )
-        .prop_map(|(kind, script, plan, sched, seed, linger_ms, busy_tx)| {
+        .prop_map(|(kind, script, plan, sched, seed, linger_ms, busy_tx, after_timeout)| {
             let mut script: Vec<Msg> = script
                 .into_iter()
                 .map(|(from_a, len, recv_delay_ms)| Msg {
@@ -95,6 +100,7 @@ pub fn case_strategy() -> impl Strategy<Value = C09Case> {
                 seed,
                 linger_ms,
                 busy_tx,
+                after_timeout,
             }
         })
 }
@@ -139,7 +145,8 @@ async fn app(
     script: &[Msg],
     log: &RefCell<AppLog>,
     linger_ms: u32,
-) {
+) -> bool {
+    let mut timed_out = false;
     for (i, m) in script.iter().enumerate() {
         if m.from_a == me_is_a {
             log.borrow_mut().sends.push(SendRec {
@@ -152,6 +159,7 @@ async fn app(
                 .await;
             let r = r.map_err(|e| e.code());
             let failed = r.is_err();
+            timed_out = matches!(r, Err(ErrorCode::TxTimeout));
             log.borrow_mut().sends.last_mut().unwrap().done = Some((clock::now(), r));
             if failed {
                 break;
@@ -164,6 +172,11 @@ async fn app(
                 Ok(rx) => {
                     let meta = rx.meta();
                     let p = rx.payload();
+                    if meta.proto_id == PROTO && meta.proto_opcode == 0x70 {
+                        // the peer's follow-up after a transmit timeout opened this exchange (its
+                        // earlier messages never arrived): not part of the script
+                        break;
+                    }
                     let step = meta.proto_opcode as usize;
                     let ok = meta.proto_id == PROTO
                         && step < script.len()
@@ -190,6 +203,7 @@ async fn app(
         Timer::after(Duration::from_millis(linger_ms as u64)).await;
     }
     drop(ex);
+    timed_out
 }
 
 /// Lower bound (µs) of the back-off before retransmission number `k` (k = 1 is the first
@@ -258,7 +272,14 @@ pub fn simulate(case: &C09Case) -> Result<SimOut, Case> {
         });
         ex.spawn("a.app", async {
             match Exchange::initiate_for_session(&a, &ca, planted.a_internal) {
-                Ok(exch) => app(exch, true, &script, &log_a, case.linger_ms.0).await,
+                Ok(exch) => {
+                    if app(exch, true, &script, &log_a, case.linger_ms.0).await && case.after_timeout {
+                        // the session may still take an exchange (PASE) or not (CASE, expired)
+                        if let Ok(mut e2) = Exchange::initiate_for_session(&a, &ca, planted.a_internal) {
+                            let _ = e2.send(MessageMeta::new(PROTO, 0x70, true), &payload(0x70, 5)).await;
+                        }
+                    }
+                }
                 Err(e) => log_a
                     .borrow_mut()
                     .errors
@@ -267,7 +288,13 @@ pub fn simulate(case: &C09Case) -> Result<SimOut, Case> {
         });
         ex.spawn("b.app", async {
             match Exchange::accept(&b).await {
-                Ok(exch) => app(exch, false, &script, &log_b, case.linger_ms.1).await,
+                Ok(exch) => {
+                    if app(exch, false, &script, &log_b, case.linger_ms.1).await && case.after_timeout {
+                        if let Ok(mut e2) = Exchange::initiate_for_session(&b, &cb, planted.b_internal) {
+                            let _ = e2.send(MessageMeta::new(PROTO, 0x70, true), &payload(0x70, 5)).await;
+                        }
+                    }
+                }
                 Err(e) => log_b
                     .borrow_mut()
                     .errors
